@@ -3,8 +3,8 @@ import SakuraVerif.Model.Smf
     (`lexer::read_timebase`, `Song::change_cur_track`, `Track::new`'s channel clamp). -/
 namespace Sakura
 
-/-- `read_timebase`: `song.timebase = v; if song.timebase <= 48 { song.timebase = 48 }` -/
-def readTimebase (v : Int) : Int := if v ≤ 48 then 48 else v
+/-- `read_timebase`: `song.timebase = v; if song.timebase <= 48 { song.timebase = 48 }; if song.timebase > 32767 { song.timebase = 32767 }` -/
+def readTimebase (v : Int) : Int := if v ≤ 48 then 48 else if v > 32767 then 32767 else v
 
 /-- `Track::new`: channel clamped to 0..15 -/
 def trackNewChannel (ch : Int) : Int := if ch < 0 then 0 else if ch > 15 then 15 else ch
